@@ -10,12 +10,14 @@ Model of bids and fiats:
   * the scheduler side is `Model/Sked.lean` (`Skedder.run` sends `tasker.desire`), instantiated here
     with the environment `FramerEnv`.
 
-Frames are modelled only as far as the runner table needs them (the frame engine proper —
-outlines, auxiliaries, clocks — is `Model/Outline.lean` / `Model/Flo.lean`, another engineer's):
-a framer is a flat list of frames (no over/under, no auxiliaries); a frame has entry guards
-(`beacts`: `let me if …` needs and fiats placed in the benter context), enter / recur / exit actions
-and transitions (`go <frame> if …`).  Actions are bids, fiats and `put <n> into .flag.<k>`.
-Slave framers may bid and put but not fiat (no nesting of fiats: `unsupported` is set otherwise).
+Frames are modelled as far as bids, fiats and the runner table need them (the frame engine proper —
+auxiliaries, conditional auxiliaries, clocks, clones — is `Model/Outline.lean` / `Model/Flo.lean`, another
+engineer's): a framer is a forest of frames (`frame x in y`); the entered frames are the outline of the active
+frame (ancestors, the frame, primary unders down to the bottom, as `Frame.traceOutline`), transitions exit and
+enter the uncommon parts (`Framer.ExEn`); a frame has entry guards (`beacts`: `let me if …` needs and fiats
+placed in the benter context), enter / recur / exit actions and transitions (`go <frame> if …`). Actions are
+bids, fiats and `put <n> into .flag.<k>`; every frame's first enter and first exit action is a recorder
+(`Obs.mark`). Fiats nest to any depth: a slave's frames may fiat its own slaves (`fiatD`).
 
 Every write to a framer's `desire` is recorded in `World.trace` (`Obs.write`), and every scheduler
 send is bracketed by `Obs.recv … Obs.yield`: the theorems of `Props/C04.lean` are about this trace.
@@ -56,6 +58,8 @@ structure Trans where
   deriving DecidableEq, Repr, Inhabited
 
 structure Frame (τ : Type) where
+  /-- `frame <name> in <over>` -/
+  over : Option Nat := none
   beacts : List Guard := []
   enacts : List (Act τ) := []
   reacts : List (Act τ) := []
@@ -70,8 +74,8 @@ structure Fr (τ : Type) where
   frames : List (Frame τ)
   status : Status := .stopped
   desire : Control := .stop
-  /-- index of `framer.active` (`actives = [active]`: frames are flat) -/
-  active : Option Nat := none
+  /-- `framer.actives`: the entered frames (the outline of the active frame), top down -/
+  actives : List Nat := []
   recurred : Nat := 0
   deriving Repr, Inhabited
 
@@ -89,6 +93,9 @@ inductive Obs (τ : Type)
   | fiat (by_ slave : Nat) (c : Control) (st : Status) (ret : Bool)
   /-- `checkStart()` of framer `id` returned `ok` -/
   | check (id : Nat) (ok : Bool)
+  /-- frame `f` of framer `id` is entered (`true`) / exited (`false`): the recorder deed that is the first enter
+  and the first exit action of every frame -/
+  | mark (id f : Nat) (enter : Bool)
   deriving Repr, Inhabited
 
 structure World (τ : Type) where
@@ -159,62 +166,108 @@ def evalGuards (H : FiatH τ) (by_ : Nat) : List Guard → World τ → Bool × 
 
 def frameOf (f : Fr τ) (idx : Nat) : Frame τ := f.frames.getD idx {}
 
+def setRecurred (i n : Nat) (w : World τ) : World τ := w.modF i fun f => { f with recurred := n }
+def bumpRecurred (i : Nat) (w : World τ) : World τ := w.modF i fun f => { f with recurred := f.recurred + 1 }
+def setActives (i : Nat) (l : List Nat) (w : World τ) : World τ := w.modF i fun f => { f with actives := l }
+
+/-! outlines (`Frame.traceOutline`) and `Framer.ExEn` -/
+
+/-- ancestors of `f`, top first, `f` last (`fuel` bounds the climb) -/
+def headOf (frames : List (Frame τ)) : Nat → Nat → List Nat
+  | 0, f => [f]
+  | fuel+1, f =>
+    match (frames.getD f {}).over with
+    | some o => headOf frames fuel o ++ [f]
+    | none => [f]
+
+/-- primary under: the first declared frame whose `over` is `f` -/
+def underOf (frames : List (Frame τ)) (f : Nat) : Option Nat :=
+  (List.range frames.length).find? (fun g => (frames.getD g {}).over == some f)
+
+/-- primary unders below `f`, down to the bottom -/
+def tailOf (frames : List (Frame τ)) : Nat → Nat → List Nat
+  | 0, _ => []
+  | fuel+1, f =>
+    match underOf frames f with
+    | some u => u :: tailOf frames fuel u
+    | none => []
+
+/-- `frame.outline`: the ancestors, the frame, then the primary unders down to the bottom -/
+def outline (frames : List (Frame τ)) (f : Nat) : List Nat :=
+  headOf frames frames.length f ++ tailOf frames frames.length f
+
+/-- `Framer.ExEn(nears, far)`: (exits, enters) -/
+def exEn (nears fars : List Nat) (far : Nat) : List Nat × List Nat :=
+  match nears, fars with
+  | n :: ns, f :: fs => if n = far ∨ n ≠ f then (n :: ns, f :: fs) else exEn ns fs far
+  | _, _ => ([], [])
+
+/-- `Framer.checkEnter(enters)`: the entry guards of each frame, top down, stopping at the first failure -/
+def guardsOf (H : FiatH τ) (i : Nat) : List Nat → World τ → Bool × World τ
+  | [], w => (true, w)
+  | f :: rest, w =>
+    let r := evalGuards H i (frameOf (w.framers i) f).beacts w
+    if r.1 then guardsOf H i rest r.2 else (false, r.2)
+
 /-- `Framer.checkStart()` = `checkEnter(enters=first.outline)`; false when there is no first frame -/
 def checkStart (H : FiatH τ) (i : Nat) (w : World τ) : Bool × World τ :=
   let r := if (w.framers i).frames.isEmpty then (false, w)
-           else evalGuards H i (frameOf (w.framers i) 0).beacts w
+           else guardsOf H i (outline (w.framers i).frames 0) w
   (r.1, r.2.log (.check i r.1))
 
-def setRecurred (i n : Nat) (w : World τ) : World τ := w.modF i fun f => { f with recurred := n }
-def bumpRecurred (i : Nat) (w : World τ) : World τ := w.modF i fun f => { f with recurred := f.recurred + 1 }
-def setActive (i : Nat) (a : Option Nat) (w : World τ) : World τ := w.modF i fun f => { f with active := a }
-
-/-- `Framer.enter([frame])`: restart the counter, run the enter actions (then `activate`) -/
-def enterFrame (H : FiatH τ) (i idx : Nat) (w : World τ) : World τ :=
-  setActive i (some idx) (runActs H i (frameOf (w.framers i) idx).enacts (setRecurred i 0 w))
-
-/-- `Framer.enterAll()` -/
-def enterAll (H : FiatH τ) (i : Nat) (w : World τ) : World τ :=
-  -- `activate(first)` comes first in the code; nothing in between reads `active`
-  enterFrame H i 0 (setActive i (some 0) w)
-
-/-- `Framer.recur()`: the recur actions of the active frame -/
-def recur (H : FiatH τ) (i : Nat) (w : World τ) : World τ :=
-  match (w.framers i).active with
-  | some idx => runActs H i (frameOf (w.framers i) idx).reacts w
-  | none => w
-
-/-- the exit actions of the active frame -/
-def exitActive (H : FiatH τ) (i : Nat) (w : World τ) : World τ :=
-  match (w.framers i).active with
-  | some idx => runActs H i (frameOf (w.framers i) idx).exacts w
-  | none => w
-
-/-- `Framer.exitAll()`: exit actions of the active frame, then `deactivate` -/
-def exitAll (H : FiatH τ) (i : Nat) (w : World τ) : World τ :=
-  setActive i none (exitActive H i w)
-
-/-- `Frame.precur()`: the transitions in order; a transition whose needs hold and whose target's entry
-guards pass is taken (exit near, enter far, activate far) and ends the evaluation. -/
-def precur (H : FiatH τ) (i near : Nat) : List Trans → World τ → World τ
+/-- `Frame.enter()` for each frame of the list, in list order -/
+def enterFrames (H : FiatH τ) (i : Nat) : List Nat → World τ → World τ
   | [], w => w
+  | f :: rest, w => enterFrames H i rest (runActs H i (frameOf (w.framers i) f).enacts (w.log (.mark i f true)))
+
+/-- `Frame.exit()` for each frame of the list, in list order (the caller reverses the outline) -/
+def exitFrames (H : FiatH τ) (i : Nat) : List Nat → World τ → World τ
+  | [], w => w
+  | f :: rest, w => exitFrames H i rest (runActs H i (frameOf (w.framers i) f).exacts (w.log (.mark i f false)))
+
+/-- `Frame.recur()` for each entered frame, top down -/
+def recurFrames (H : FiatH τ) (i : Nat) : List Nat → World τ → World τ
+  | [], w => w
+  | f :: rest, w => recurFrames H i rest (runActs H i (frameOf (w.framers i) f).reacts w)
+
+/-- `Framer.enterAll()`: `activate(first)`, restart the counter, enter the outline of the first frame top down -/
+def enterAll (H : FiatH τ) (i : Nat) (w : World τ) : World τ :=
+  enterFrames H i (outline (w.framers i).frames 0) (setRecurred i 0 (setActives i (outline (w.framers i).frames 0) w))
+
+/-- `Framer.recur()` -/
+def recur (H : FiatH τ) (i : Nat) (w : World τ) : World τ := recurFrames H i (w.framers i).actives w
+
+/-- `Framer.exitAll()`: exit the entered frames bottom up, then `deactivate` -/
+def exitAll (H : FiatH τ) (i : Nat) (w : World τ) : World τ :=
+  setActives i [] (exitFrames H i (w.framers i).actives.reverse w)
+
+/-- `Frame.precur()`: the transitions in order; a transition whose needs hold, that changes the outline and whose
+entered frames' guards pass is taken (exit bottom up, enter top down, activate the target) and ends the
+evaluation (`true`). -/
+def precur (H : FiatH τ) (i : Nat) : List Trans → World τ → World τ × Bool
+  | [], w => (w, false)
   | t :: rest, w =>
     if t.conds.all (evalCond i w) then
-      let r := evalGuards H i (frameOf (w.framers i) t.target).beacts w
-      if r.1 then
-        enterFrame H i t.target (runActs H i (frameOf (w.framers i) near).exacts r.2)
-      else precur H i near rest r.2
-    else precur H i near rest w
+      let x := exEn (w.framers i).actives (outline (w.framers i).frames t.target) t.target
+      if x.2.isEmpty then precur H i rest w
+      else
+        let r := guardsOf H i x.2 w
+        if r.1 then
+          (setActives i (outline (w.framers i).frames t.target)
+            (enterFrames H i x.2 (setRecurred i 0 (exitFrames H i x.1.reverse r.2))), true)
+        else precur H i rest r.2
+    else precur H i rest w
 
-/-- the transitions of the active frame -/
-def precurActive (H : FiatH τ) (i : Nat) (w : World τ) : World τ :=
-  match (w.framers i).active with
-  | some idx => precur H i idx (frameOf (w.framers i) idx).preacts w
-  | none => w
+/-- `for frame in self.actives: if frame.precur(): return True` -/
+def precurFrames (H : FiatH τ) (i : Nat) : List Nat → World τ → World τ
+  | [], w => w
+  | f :: rest, w =>
+    let r := precur H i (frameOf (w.framers i) f).preacts w
+    if r.2 then r.1 else precurFrames H i rest r.1
 
-/-- `Framer.segue()`: count the recurrence, then try the transitions of the active frame -/
+/-- `Framer.segue()`: count the recurrence, then try the transitions of the entered frames, top down -/
 def segue (H : FiatH τ) (i : Nat) (w : World τ) : World τ :=
-  precurActive H i (bumpRecurred i w)
+  precurFrames H i ((bumpRecurred i w).framers i).actives (bumpRecurred i w)
 
 /-! the branches of the control × status table of `Framer.makeRunner` -/
 
@@ -275,16 +328,25 @@ def table (H : FiatH τ) (i : Nat) (c : Control) (w : World τ) : Status × Worl
     | .abort | .other => abortAny H i live w     -- `else: #control == ABORT or unknown`
   ((w'.framers i).status, w')
 
-/-- a fiat inside a slave: not modelled -/
+/-- no fiat can be carried out here (the recursion budget of `fiatD` is used up, or the target is a framer
+whose generator is executing): outside the model -/
 def noFiat : FiatH τ := fun _ _ _ w => ({ w with unsupported := true }, false)
 
-/-- `Fiat<c>.action(tasker=slave)`: `status = tasker.runner.send(c); return status == <expected>`.
-(A framer sending into its own running generator is a `ValueError` in Python: not modelled.) -/
-def fiatTop : FiatH τ := fun by_ c sl w =>
-  if sl = by_ then ({ w with unsupported := true }, false) else
-  let r := table noFiat sl c w
-  let ret := decide (r.1 = expected c)
-  (r.2.log (.fiat by_ sl c r.1 ret), ret)
+/-- `Fiat<c>.action(tasker=slave)`: `status = tasker.runner.send(c); return status == <expected>`, at any depth
+of the master/slave tree: the slave's runner is resumed, and the fiats that ITS frames issue are carried out one
+level further down. `chain` = the framers whose generators are executing above the issuer `by_`; resuming one of
+them (or the issuer itself) is a `ValueError: generator already executing` in Python and is not modelled
+(`unsupported`). `d` bounds the depth (`World.n + 1` at the top: a chain of distinct framers is never longer). -/
+def fiatD : Nat → List Nat → FiatH τ
+  | 0, _ => noFiat
+  | d+1, chain => fun by_ c sl w =>
+    if sl ∈ by_ :: chain then ({ w with unsupported := true }, false) else
+    let r := table (fiatD d (by_ :: chain)) sl c w
+    let ret := decide (r.1 = expected c)
+    (r.2.log (.fiat by_ sl c r.1 ret), ret)
+
+/-- the fiats of a scheduled framer -/
+def fiatTop (n : Nat) : FiatH τ := fiatD (n + 1) []
 
 /-- the scheduler's view of the framers -/
 def FramerEnv : Env τ (World τ) where
@@ -294,7 +356,7 @@ def FramerEnv : Env τ (World τ) where
   active w i := (w.framers i).sched = .active
   setReady i c w := setStatus i .stopped (writeDesire i c w)
   send ph i c _ w :=
-    let r := table fiatTop i c (w.log (.recv ph i c))
+    let r := table (fiatTop w.n) i c (w.log (.recv ph i c))
     (.yielded r.1, r.2.log (.yield i r.1))
   boundary _ _ := none
 
@@ -307,29 +369,31 @@ structure Program (τ : Type) where
   framers : List (Fr τ)
   deriving Repr, Inhabited
 
-def actOk (n : Nat) (isSlave : Nat → Bool) (inSlave : Bool) : Act τ → Bool
+def actOk (n : Nat) (isSlave : Nat → Bool) (me : Nat) : Act τ → Bool
   | .bid ts _ _ => ts.all (fun t => decide (t < n) && !isSlave t)
-  | .fiat c sl => !inSlave && decide (sl < n) && isSlave sl && c != .other
+  | .fiat c sl => decide (sl < n) && isSlave sl && c != .other && (!isSlave me || decide (me < sl))
   | .put _ _ => true
 
-def guardOk (n : Nat) (isSlave : Nat → Bool) (inSlave : Bool) : Guard → Bool
+def guardOk (n : Nat) (isSlave : Nat → Bool) (me : Nat) : Guard → Bool
   | .cond _ => true
-  | .fiat c sl => !inSlave && decide (sl < n) && isSlave sl && c != .other
+  | .fiat c sl => decide (sl < n) && isSlave sl && c != .other && (!isSlave me || decide (me < sl))
 
-/-- ids in range, slaves are not scheduled and are the only fiat targets, bids go to non-slaves,
-slaves do not fiat, every framer has a first frame, transitions go to another existing frame -/
+/-- ids in range, slaves are not scheduled and are the only fiat targets, bids go to non-slaves, a slave
+fiats only slaves declared after it (so the master/slave relation is a forest-like DAG and no generator is
+resumed while it is executing), every framer has a first frame, `over` points to an earlier frame, transitions go to another existing frame -/
 def Program.wellFormed (p : Program τ) : Bool :=
   let n := p.framers.length
   let isSlave := fun i => (p.framers.getD i { sched := .inactive, period := p.period, frames := [] }).sched == .slave
   let placed := p.houses.flatMap House.taskables
   placed.all (fun i => decide (i < n) && !isSlave i) && placed.eraseDups.length == placed.length &&
-  p.framers.all (fun f =>
+  (List.range n).all (fun me =>
+    let f := p.framers.getD me { sched := .inactive, period := p.period, frames := [] }
     !f.frames.isEmpty &&
     (List.range f.frames.length).all (fun idx =>
       let fr := frameOf f idx
-      let sl := f.sched == .slave
-      fr.beacts.all (guardOk n isSlave sl) &&
-      (fr.enacts ++ fr.reacts ++ fr.exacts).all (actOk n isSlave sl) &&
+      fr.beacts.all (guardOk n isSlave me) &&
+      (fr.enacts ++ fr.reacts ++ fr.exacts).all (actOk n isSlave me) &&
+      (match fr.over with | some o => decide (o < idx) | none => true) &&
       fr.preacts.all (fun t => decide (t.target < f.frames.length) && t.target != idx)))
 
 def Program.world (p : Program τ) : World τ :=
